@@ -366,6 +366,11 @@ Section Interp.
         | Val t => Val (str_isdigit t, st)
         | Raises => Raises | NoDen => NoDen
         end
+    | CLenLe e n =>
+        match eval_text e st with
+        | Val t => Val ((Z.of_nat (List.length t) <=? n)%Z, st)
+        | Raises => Raises | NoDen => NoDen
+        end
     | CDone a =>
         if mem_s a known_attrs then Val (has_field (w_s (st_w st)) a, st) else NoDen
     | CNot x =>
@@ -660,7 +665,7 @@ Definition ref_programs : list (string * hprog) := [
        HReturn true]);
   ("quit", P [HReply (ELit "221") EOpaque; HReturn false]);
   ("rest", P [
-       HIf (CAnd (CIsAscii ERest) (CIsDigit ERest))
+       HIf (CAnd (CAnd (CIsAscii ERest) (CIsDigit ERest)) (CLenLe ERest 18))
            [HSetAttr "restart_offset" (EIntOf ERest); HReply (ELit "350") EOpaque]
            [HSetAttr "restart_offset" (EInt 0); HReply (ELit "501") EOpaque];
        HReturn true]);
